@@ -425,6 +425,14 @@ class Run:
 
     def api(self, kind, phase, name):
         ctx = self.ctx
+        if kind == 'flush':
+            # `flush adj-rib out` (reactor.neighbor_rib_resend -> Peer.resend): the whole Adj-RIB-Out is to be sent again.  It
+            # changes nothing in what the peer is MEANT to hold
+            self.peer.resend(False)
+            ctx.cover('flush-%s' % phase)
+            self.log.append('%s:flush' % phase)
+            self.nop += 1
+            return
         fam = V6 if kind.endswith('6') else V4
         base = kind[:-1] if kind.endswith('6') else kind
         p = ctx.int(name + '.p', 0, self.dom - 1)
@@ -831,6 +839,9 @@ def units(tier):
     us.append(_u('resync/kept/v46/fewer-families-first', ('earlier-session-negotiated-fewer-families', 'routes-then-eor'), fams=(V4, V6), aro=True,
                  early_fams=(V4,), cuts=('write', 'idle-eof', 'ka-eof'), n_up=1, n_down=1, jmax=3,
                  up_kinds=('none', 'announce:y6', 'withdraw6', 'announce:y'), down_kinds=none46, up_at=('mid', 'idle'), weight=60))
+    # `flush adj-rib out` among the operations (while up, and while down: the refresh list is filled after Peer._reset emptied it)
+    us.append(_u('resync/kept/v4/flush', ('flush-down', 'withdraw-present-down'), fams=(V4,), aro=True, cuts=('write', 'idle-eof', 'refused'), n_up=1, n_down=2, jmax=3,
+                 up_kinds=('none', 'flush', 'announce:y'), down_kinds=('flush', 'withdraw', 'announce:y'), up_at=('mid', 'idle'), weight=70))
     # rate-limited neighbor: one message per loop iteration, so the remote end can close (seen at the next read) while the
     # update generator is partially consumed, and operations arrive between two messages of one batch
     us.append(_u('resync/kept/v4/rate/u1d1', ('cut:read', 'cut:write', 'remote-closes-while-generator-live', 'operation-while-first-batch-in-flight'),
